@@ -476,8 +476,11 @@ Definition cls_step (s : st) (t : tid) (k : crec) (b : bool) : option st :=
           | None => None
           end
       | None =>
+          (* `for channel := range channels`: Go map order, i.e. any order; b = false moves the head of
+             the remaining snapshot to the back (a scheduling choice without effect), b = true takes it *)
           match k_rest k with
-          | c :: r => go (mkC CLoop (k_prev k) r (Some (new_u c USnap))) s
+          | c :: r => if b then go (mkC CLoop (k_prev k) r (Some (new_u c USnap))) s
+                      else go (mkC CLoop (k_prev k) (r ++ [c]) None) s
           | [] => go (with_kpc k CDisc) s
           end
       end
